@@ -7,9 +7,11 @@ import (
 	"context"
 	"encoding/json"
 	"errors"
+	"fmt"
 	"reflect"
 	"sort"
 	"strings"
+	"sync"
 	"time"
 
 	"github.com/pojntfx/panrpc/go/pkg/rpc"
@@ -31,6 +33,7 @@ type RemoteCase struct {
 	LinkErr string            `json:"linkerr"`           // "" = link healthy
 	Names   map[string]string `json:"names,omitempty"`   // dotted field path -> function name seen on the wire
 	E2E     map[string]string `json:"e2e,omitempty"`     // dotted field path -> path of the method that ran on a real peer
+	Enum    []string          `json:"enum,omitempty"`    // disagreements between ForRemotes and the connect/disconnect notifications
 }
 
 var ctxT = reflect.TypeOf((*context.Context)(nil)).Elem()
@@ -172,9 +175,62 @@ type rdChan struct {
 func runRemote[R any](name string) RemoteCase {
 	var zero R
 	rc := RemoteCase{Def: name, Desc: describeRemote("", reflect.TypeOf(zero)), Names: map[string]string{}}
-	reg := rpc.NewRegistry[R, json.RawMessage](struct{}{}, nil)
+	var hmu sync.Mutex
+	var connects, disconnects []string
+	reg := rpc.NewRegistry[R, json.RawMessage](struct{}{}, &rpc.RegistryHooks{
+		OnClientConnect:    func(id string) { hmu.Lock(); connects = append(connects, id); hmu.Unlock() },
+		OnClientDisconnect: func(id string) { hmu.Lock(); disconnects = append(disconnects, id); hmu.Unlock() },
+	})
+	hooks := func() (c, d []string) {
+		hmu.Lock()
+		defer hmu.Unlock()
+		return append([]string{}, connects...), append([]string{}, disconnects...)
+	}
+	// the enumeration against the notifications: whatever was announced as connected before the enumeration
+	// and not announced as disconnected by the time it is over must be in it, and nothing else
+	probe := func(when string) {
+		c0, d0 := hooks()
+		var enum []string
+		reg.ForRemotes(func(id string, r R) error { enum = append(enum, id); return nil })
+		c1, d1 := hooks()
+		if len(c0) != len(c1) || len(d0) != len(d1) {
+			return // a notification arrived meanwhile: no verdict from this probe
+		}
+		live := []string{}
+		for _, id := range c0 {
+			gone := false
+			for _, x := range d0 {
+				gone = gone || x == id
+			}
+			if !gone {
+				live = append(live, id)
+			}
+		}
+		sort.Strings(enum)
+		sort.Strings(live)
+		if strings.Join(enum, ",") != strings.Join(live, ",") {
+			rc.Enum = append(rc.Enum, fmt.Sprintf("%s: ForRemotes enumerates %d remote(s) %v, but the links announced as connected and not yet as disconnected are %v", when, len(enum), enum, live))
+		}
+	}
+	waitConnect := func() {
+		for dl := time.Now().Add(time.Second); time.Now().Before(dl); time.Sleep(200 * time.Microsecond) {
+			if c, _ := hooks(); len(c) > 0 {
+				return
+			}
+		}
+	}
 	ctx, cancel := context.WithCancel(context.Background())
 	defer cancel()
+	// after the link's context ended: the disconnect notification arrives and the enumeration is empty again
+	finish := func() {
+		cancel()
+		for dl := time.Now().Add(2 * time.Second); time.Now().Before(dl); time.Sleep(200 * time.Microsecond) {
+			if c, d := hooks(); len(d) >= len(c) {
+				break
+			}
+		}
+		probe("after the link's context was cancelled")
+	}
 	frames := make(chan string, 64)
 	linkErr := make(chan error, 1)
 	go func() {
@@ -201,6 +257,9 @@ func runRemote[R any](name string) RemoteCase {
 		select {
 		case err := <-linkErr:
 			rc.LinkErr = errText(err)
+			waitConnect()
+			probe("the link was rejected (" + rc.LinkErr + ") but its reads have not returned yet")
+			finish()
 			return rc
 		default:
 		}
@@ -211,9 +270,13 @@ func runRemote[R any](name string) RemoteCase {
 	select {
 	case err := <-linkErr:
 		rc.LinkErr = errText(err)
+		waitConnect()
+		probe("the link was rejected (" + rc.LinkErr + ") but its reads have not returned yet")
+		finish()
 		return rc
 	case <-time.After(20 * time.Millisecond):
 	}
+	probe("the link is up")
 	if !got {
 		rc.LinkErr = "NO-REMOTE"
 		return rc
@@ -258,7 +321,8 @@ func runRemote[R any](name string) RemoteCase {
 		}
 	}
 	walk(reflect.ValueOf(remote), "")
-	cancel()
+	probe("after every stub was called")
+	finish()
 	select {
 	case <-linkErr:
 	case <-time.After(2 * time.Second):
@@ -336,6 +400,44 @@ func (l *lvE) Own(ctx context.Context) error                 { l.r.hit("Own"); r
 func (b lvEB) F(ctx context.Context, x int) (int, error)     { b.r.hit(b.pre + "RdBase.F"); return x, nil }
 func (b lvEB) G(ctx context.Context) error                   { b.r.hit(b.pre + "RdBase.G"); return nil }
 func (t *lvET) H(ctx context.Context, x int) (int, error)    { t.r.hit("Tail.H"); return x, nil }
+
+// non-exported function fields are function fields like any other: an invalid signature fails the link
+type rdUnexpRet struct {
+	Ok     fE
+	helper func()
+}
+type rdUnexpArgs struct {
+	Ok    fE
+	Inner struct {
+		callback func(s string) error
+	}
+}
+
+// field names that coincide with names panrpc uses internally (its closure manager's exported method,
+// the registry's own methods): they are ordinary paths of the peer's struct
+type rdNames struct {
+	CallClosure func(ctx context.Context, closureID string, args []interface{}) (interface{}, error)
+	N           struct {
+		CallClosure fE
+		ForRemotes  fOK
+	}
+	LinkMessage fE
+	Close       fOK
+}
+type lvN struct {
+	r *pathRec
+	N lvNN
+}
+type lvNN struct{ r *pathRec }
+
+func (l *lvN) CallClosure(ctx context.Context, closureID string, args []interface{}) (interface{}, error) {
+	l.r.hit("CallClosure")
+	return nil, nil
+}
+func (l *lvN) LinkMessage(ctx context.Context) error              { l.r.hit("LinkMessage"); return nil }
+func (l *lvN) Close(ctx context.Context, x int) (int, error)      { l.r.hit("Close"); return x, nil }
+func (n lvNN) CallClosure(ctx context.Context) error              { n.r.hit("N.CallClosure"); return nil }
+func (n lvNN) ForRemotes(ctx context.Context, x int) (int, error) { n.r.hit("N.ForRemotes"); return x, nil }
 
 func runRemoteE2E[R any](name string, local any, rec *pathRec) RemoteCase {
 	var zero R
@@ -415,10 +517,11 @@ func hasUnusableFuncParam(t reflect.Type) bool {
 }
 
 func RunRemotes() []RemoteCase {
-	r1, r2, r3 := newPathRec(), newPathRec(), newPathRec()
+	r1, r2, r3, r4 := newPathRec(), newPathRec(), newPathRec(), newPathRec()
 	e2e := []RemoteCase{
 		runRemoteE2E[rdEmbedded]("embedded/e2e", &lvE{r: r3, RdBase: lvEB{r3, ""}, Tail: &lvET{r: r3, RdBase: lvEB{r3, "Tail."}}}, r3),
 		runRemoteE2E[rdValid1]("valid1/e2e", &lv1{r: r1, N: &lv1N{r: r1, D: lv1D{r1}}}, r1),
+		runRemoteE2E[rdNames]("names/e2e", &lvN{r: r4, N: lvNN{r4}}, r4),
 		runRemoteE2E[rdValid2]("valid2/e2e", &lv2{r: r2, First: lv2F{r2}, Last: &lv2L{r: r2, In: &lv2I{r2}}}, r2),
 	}
 	out := []RemoteCase{
@@ -428,6 +531,7 @@ func RunRemotes() []RemoteCase {
 		runRemote[rdTwoBad]("twobad"), runRemote[rdTwoBad2]("twobad2"), runRemote[rdBothBad]("bothbad"), runRemote[rdChan]("chan-map-ptr"),
 		runRemote[sysRemote]("sysremote"), runRemote[epRemote]("epremote"),
 		runRemote[rdEmbedded]("embedded"), runRemote[rdAnyFirst]("anyfirst"), runRemote[rdWiderCtx]("widerctx"),
+		runRemote[rdNames]("names"), runRemote[rdUnexpRet]("unexp-ret"), runRemote[rdUnexpArgs]("unexp-args"),
 	}
 	out = append(out, e2e...)
 	sort.Slice(out, func(i, j int) bool { return out[i].Def < out[j].Def })
